@@ -700,7 +700,7 @@ func runAdmServer(name string, k int, conc int, rnd *vk.Rand, nextID *int, perCo
 func middlewareMain(args []string) error {
 	fs := flag.NewFlagSet("middleware", flag.ExitOnError)
 	seed := fs.Uint64("seed", 1, "")
-	mode := fs.String("mode", "adm", "adm|admgo|ev")
+	mode := fs.String("mode", "adm", "adm|admgo|ev|win")
 	maxLen := fs.Int("maxlen", 3, "max chain length")
 	conc := fs.Int("conc", 8, "concurrent sessions")
 	perConn := fs.Int("perconn", 3, "rejected attempts per connection before an accepted one")
@@ -735,6 +735,8 @@ func middlewareMain(args []string) error {
 		return admGoMain(out, rnd, *maxLen, *n)
 	case "ev":
 		return evMain(out, rnd, *maxLen)
+	case "win":
+		return winMain(out, rnd, *maxLen)
 	default:
 		return fmt.Errorf("unknown mode %s", *mode)
 	}
